@@ -191,29 +191,19 @@ where
         if indices.is_empty() {
             return self.set_range(start, leaves_vec.into_iter());
         }
-        let min_index = *indices.first().unwrap();
-
-        let max_index = start + leaves_vec.len();
-
-        let mut set_values = vec![Self::Hasher::default_leaf(); max_index - min_index];
-
-        for i in min_index..start {
-            if !indices.contains(&i) {
-                let value = self.get_leaf(i);
-                set_values[i - min_index] = value;
-            }
+        // Reject the whole batch before touching the tree
+        if start > self.capacity() || leaves_vec.len() > self.capacity() - start {
+            return Err(Report::msg("provided leaves do not fit in the tree"));
         }
-
-        for i in 0..leaves_vec.len() {
-            set_values[start - min_index + i] = leaves_vec[i];
+        if indices.iter().any(|&i| i >= self.capacity()) {
+            return Err(Report::msg("index to remove exceeds set size"));
         }
-
-        for i in indices {
-            self.cached_leaves_indices[i] = 0;
+        let end = start + leaves_vec.len();
+        // Removed positions are reset to the default leaf; the ones inside the written range are overwritten below
+        for &i in indices.iter().filter(|&&i| i < start || i >= end) {
+            self.delete(i)?;
         }
-
-        self.set_range(start, set_values.into_iter())
-            .map_err(|e| Report::msg(e.to_string()))
+        self.set_range(start, leaves_vec.into_iter())
     }
 
     // Sets a leaf at the next available index
